@@ -27,7 +27,7 @@ MANIFEST = dict(
 ASB_FILE = os.path.join(core.VERIF, "spec", "asbuilt_options.json")
 VNAMES = ["VProps", "VDict", "VNice", "VPreset", "VFilter", "VSize", "VReaderMinDict"]
 WRITERS = ["lzma", "lzmahdr", "lzma2", "xz", "lzip", "lzma2mt", "lzipmt"]
-DICT = {"0": 0, "1": 1, "4095": 4095, "4096": 4096, "64K": 65536, "100000": 100000, "600000": 600000, "1M": 1 << 20, "768M": 768 << 20, "768M+1": (768 << 20) + 1,
+DICT = {"0": 0, "1": 1, "4095": 4095, "4096": 4096, "5000": 5000, "64K": 65536, "100000": 100000, "600000": 600000, "1M": 1 << 20, "768M": 768 << 20, "768M+1": (768 << 20) + 1,
         "1.5G": 0x60000000, "2G": 0x80000000, "4G-16": 0xFFFFFFF0, "4G-1": 0xFFFFFFFF}
 DEPTH = {"min": -(1 << 31), "neg1": -1, "zero": 0, "one": 1, "max": (1 << 31) - 1}
 PD = {"empty": 0, "some": 100, "long": 70000}
@@ -89,9 +89,29 @@ def value_class(p):
     return "base"
 
 
+def far_short_hex(d, n, seed):
+    """Incompressible bytes in which every ~24th position starts a 3..9-byte copy of what stood d - d/64 - 1 .. d bytes
+    earlier: short matches (below nice_len, so the optimal parser prices them) in the top distance slot of the dictionary,
+    some at exactly dict_size."""
+    rnd = random.Random(seed)
+    v = bytearray(rnd.randbytes(min(n, d)))
+    while len(v) < n:
+        v += rnd.randbytes(rnd.randrange(8, 40))
+        back = d - rnd.randrange(0, d // 64 + 2)
+        if back <= len(v):
+            k = rnd.randrange(3, 10)
+            st = len(v) - back
+            v += v[st:st + k]
+    return bytes(v[:n]).hex()
+
+
 def concretise(p, idx, variant):
     """grid point -> vh_opt case for one input variant (gen, len)."""
     gen, n = variant
+    if gen == "far_short":
+        c = concretise(p, idx, ("hex", n))
+        c["data"]["hex"] = far_short_hex(DICT[p["dict"]], n, 11 + idx)
+        return c
     w = p["w"]
     o = {"preset": 1, "lc": p["lc"], "lp": p["lp"], "pb": p["pb"], "dict_size": DICT[p["dict"]], "nice_len": p["nice"],
          "mode": p["mode"], "mf": p["mf"], "depth": DEPTH[p["depth"]]}
@@ -210,6 +230,13 @@ def run(tier, replay=None):
         # dict - 500): a container that announces a smaller window than the encoder used is only then undecodable
         if p["slice"] == "dict" and 4096 <= DICT[p["dict"]] <= (1 << 20):
             variants.append(("repeat_far", 3 * (DICT[p["dict"]] - 500)))
+        # ... short matches in the top distance slot of the dictionary (sizes off the 2^n / 3 * 2^(n-1) grid included), and
+        # inputs longer than the encoder's window buffer (1.5 * dict_size + ~257 KiB) that do not compress / compress in
+        # parts: the window moves inside chunks that the LZMA2-based writers store uncompressed out of it
+        if p["slice"] == "dict" and p["dict"] not in BIG_DICT and DICT[p["dict"]] <= ((1 << 17) if quick else (1 << 20)):
+            d = max(DICT[p["dict"]], 4096)
+            variants.append(("far_short", d + 60000))
+            variants += [("random", 3 * d // 2 + 400000), ("mixed", 3 * d // 2 + 400000)]
         for v in variants:
             c = concretise(p, i, v)
             if c is None:
